@@ -309,7 +309,7 @@ RECURSIVE WrapAll(_, _)
 WrapAll(cs, e) == IF cs = <<>> THEN e ELSE Wrap(cs[1], WrapAll(Tail(cs), e))   \* cs[1] outermost
 
 CtxSeqs(maxdepth) == UNION {[1..d -> TailCtxSet] : d \in 0..maxdepth}
-TailShapes == {"self", "mutual2", "mutual3", "param", "variadic", "closure", "closurestate"}
+TailShapes == {"self", "mutual2", "mutual3", "param", "variadic", "closure", "closurestate", "thunkarg"}
 
 \* the call: direct or through apply
 \* viaApply: 0 direct call, 1 (apply f (list a ...)), 2 (apply f a1 (list a2 ...)) - leading arguments before the list
@@ -369,6 +369,14 @@ TailProgram(abs, shape, viaApply, cs, n) ==
                     <<LoopLam(abs, <<"i">>, "", 1, IsZero, Var("acc"),
                               W(MkCall(viaApply, Call("step", <<Inc("acc")>>), <<Dec("i")>>)))>>)),
            App(Call("step", <<Num(0)>>), <<n>>)>>
+    \* an operand of the tail call builds a closure over the caller's frame; the receiver drops it until the last turn,
+    \* where it is called: it must still see the caller's i (= 1 at the last turn), and the frames of earlier turns are garbage
+    [] shape = "thunkarg" ->
+         <<Define("ping", LoopLam(abs, <<"i", "acc">>, "", 1, IsZero, Var("acc"),
+                                  W(MkCall(viaApply, Var("pong"), <<Dec("i"), Inc("acc"), Fn(<<>>, <<Var("i")>>)>>)))),
+           Define("pong", LoopLam(abs, <<"i", "acc", "k">>, "", 2, IsZero, Call("-", <<Call("+", <<Var("acc"), App(Var("k"), <<>>)>>), Num(1)>>),
+                                  MkCall(0, Var("ping"), <<Var("i"), Var("acc")>>))),
+           Call("ping", <<n, Num(0)>>)>>
 
 \* terminating members (small N): the loop must return N
 TailFinFamily(maxdepth, counts) ==
